@@ -7,6 +7,7 @@ local instance : NatCast Float := ⟨Float.ofNat⟩
 
 def errName : Err → String
   | .shape => "shape" | .noValidData => "noValidData" | .nanMember => "nanMember" | .edom => "edom"
+  | .obsNot1D => "obsNot1D" | .ensNot2D => "ensNot2D"
 
 /-- stable merge sort (glibc's `qsort` is one too; the kernel only needs sorted + permutation) -/
 def sortF (l : List Float) : List Float := l.mergeSort fun a b => decide (a ≤ b)
@@ -16,10 +17,6 @@ def optF (x : Float) : Option Float := if x.isNaN then none else some x
 
 def ratOptTok? (s : String) : Option (Option Rat) :=
   if s = "nan" then some none else (ratTok? s).map some
-
-def reshape {β : Type} (m : Nat) : Nat → List β → List (List β)
-  | 0, _ => []
-  | n + 1, l => l.take m :: reshape m n (l.drop m)
 
 def fmtOptRat : Option Rat → String
   | none => "nan"
@@ -45,6 +42,14 @@ def handle (toks : List String) : String :=
       if ens.length ≠ n * m then "bad-op" else
       match wrapper sortQ m obs (reshape m n ens) with
       | .ok r => fmtResult fmtRat fmtOptRat r
+      | .error e => "err " ++ errName e
+    | _, _, _, _ => "bad-op"
+  | ["crpsnd", oshape, obs, eshape, ens] =>
+    match parseNatList? oshape, parseNatList? eshape, parseFloatList? obs, parseFloatList? ens with
+    | some oshape, some eshape, some obs, some ens =>
+      if obs.length ≠ oshape.foldl (· * ·) 1 ∨ ens.length ≠ eshape.foldl (· * ·) 1 then "bad-op" else
+      match wrapperNd sortF oshape (obs.map optF) eshape (ens.map optF) with
+      | .ok r => fmtResult hexOfFloat fmtOptFloat r
       | .error e => "err " ++ errName e
     | _, _, _, _ => "bad-op"
   | _ => "bad-op"
